@@ -10,14 +10,20 @@ import (
 	"context"
 	"encoding/hex"
 	"fmt"
+	"io"
 	"sync"
+	"time"
 
 	"github.com/btcsuite/btcd/btcutil/psbt"
+	"github.com/btcsuite/btcd/chaincfg/chainhash"
 	"github.com/elementsproject/peerswap/lnd"
 	"github.com/elementsproject/peerswap/swap"
 	"github.com/lightningnetwork/lnd/lnrpc"
+	"github.com/lightningnetwork/lnd/lnrpc/chainrpc"
 	"github.com/lightningnetwork/lnd/lnrpc/walletrpc"
 	"google.golang.org/grpc"
+	"google.golang.org/grpc/codes"
+	"google.golang.org/grpc/status"
 )
 
 type fakeLndWalletKit struct {
@@ -139,4 +145,197 @@ func (f *fakeLndLightning) WalletBalance(ctx context.Context, in *lnrpc.WalletBa
 	n.w.mu.Lock()
 	defer n.w.mu.Unlock()
 	return &lnrpc.WalletBalanceResponse{TotalBalance: int64(n.Cfg.BtcBalance), ConfirmedBalance: int64(n.Cfg.BtcBalance)}, nil
+}
+
+// ---------------------------------------------------------------------------
+// lnd chain notifier (for the REAL lnd tx watcher, lnd/txwatcher.go)
+
+// LndChainFake implements the two rpc client interfaces lnd's TxWatcher uses — chainrpc.ChainNotifierClient
+// (RegisterConfirmationsNtfn, RegisterBlockEpochNtfn) and lnrpc.LightningClient (GetInfo) — over the chain
+// simulator. Every event / answer is stamped with the chain version it was computed from (as the rpc facades do).
+type LndChainFake struct {
+	lnrpc.LightningClient
+	chainrpc.ChainNotifierClient
+	C *Chain
+	// Hook runs before every GetInfo answer and before every event is handed out (outside any lock).
+	Hook func(call string) error
+	// Poll is how often the notifier looks at the chain (default 300µs).
+	Poll time.Duration
+
+	mu      sync.Mutex
+	seq     int64
+	Answers []Answer
+}
+
+func (f *LndChainFake) stamp(call string, v int64) {
+	f.mu.Lock()
+	f.seq++
+	f.Answers = append(f.Answers, Answer{Seq: f.seq, Call: call, Version: v})
+	f.mu.Unlock()
+}
+
+// RecentVersion: see RpcFacade.
+func (f *LndChainFake) RecentVersion(n int) (int64, int) {
+	f.mu.Lock()
+	defer f.mu.Unlock()
+	if len(f.Answers) == 0 {
+		return 0, 0
+	}
+	lo := f.Answers[len(f.Answers)-1].Version
+	for i := len(f.Answers) - 1; i >= 0 && i >= len(f.Answers)-n; i-- {
+		if f.Answers[i].Version < lo {
+			lo = f.Answers[i].Version
+		}
+	}
+	return lo, len(f.Answers)
+}
+
+func (f *LndChainFake) poll() time.Duration {
+	if f.Poll > 0 {
+		return f.Poll
+	}
+	return 300 * time.Microsecond
+}
+
+func (f *LndChainFake) GetInfo(ctx context.Context, in *lnrpc.GetInfoRequest, _ ...grpc.CallOption) (*lnrpc.GetInfoResponse, error) {
+	if f.Hook != nil {
+		if err := f.Hook("getinfo"); err != nil {
+			return nil, err
+		}
+	}
+	w := f.C.w
+	w.mu.Lock()
+	h, v := f.C.heightLocked(), f.C.Version
+	w.mu.Unlock()
+	f.stamp("getinfo", v)
+	return &lnrpc.GetInfoResponse{BlockHeight: h + f.C.HeightOffset, SyncedToChain: true}, nil
+}
+
+type lndConfStream struct {
+	grpc.ClientStream
+	ctx context.Context
+	ch  chan *chainrpc.ConfEvent
+}
+
+func (s *lndConfStream) Recv() (*chainrpc.ConfEvent, error) {
+	select {
+	case ev, ok := <-s.ch:
+		if !ok {
+			return nil, io.EOF
+		}
+		return ev, nil
+	case <-s.ctx.Done():
+		return nil, status.Error(codes.Canceled, "context canceled")
+	}
+}
+
+// RegisterConfirmationsNtfn: one ConfEvent_Conf when the transaction has numConfs confirmations on the best chain
+// (raw transaction and the height of its block), as lnd's chain notifier does; nothing while it has fewer.
+func (f *LndChainFake) RegisterConfirmationsNtfn(ctx context.Context, in *chainrpc.ConfRequest, _ ...grpc.CallOption) (chainrpc.ChainNotifier_RegisterConfirmationsNtfnClient, error) {
+	if f.Hook != nil {
+		if err := f.Hook("registerconf"); err != nil {
+			return nil, err
+		}
+	}
+	h, err := chainhash.NewHash(in.Txid)
+	if err != nil {
+		return nil, err
+	}
+	txid := h.String()
+	st := &lndConfStream{ctx: ctx, ch: make(chan *chainrpc.ConfEvent, 1)}
+	go func() {
+		t := time.NewTicker(f.poll())
+		defer t.Stop()
+		for {
+			select {
+			case <-ctx.Done():
+				return
+			case <-t.C:
+			}
+			w := f.C.w
+			w.mu.Lock()
+			tx := f.C.txs[txid]
+			var ev *chainrpc.ConfEvent
+			v := f.C.Version
+			if tx != nil && tx.Height != 0 && f.C.heightLocked()-tx.Height+1 >= in.NumConfs {
+				raw, _ := hex.DecodeString(tx.Hex)
+				ev = &chainrpc.ConfEvent{Event: &chainrpc.ConfEvent_Conf{Conf: &chainrpc.ConfDetails{RawTx: raw, BlockHeight: tx.Height + f.C.HeightOffset}}}
+			}
+			w.mu.Unlock()
+			if ev == nil {
+				continue
+			}
+			if f.Hook != nil {
+				if err := f.Hook("confevent"); err != nil {
+					continue
+				}
+			}
+			f.stamp("confevent", v)
+			select {
+			case st.ch <- ev:
+			case <-ctx.Done():
+			}
+			return
+		}
+	}()
+	return st, nil
+}
+
+type lndEpochStream struct {
+	grpc.ClientStream
+	ctx context.Context
+	ch  chan *chainrpc.BlockEpoch
+}
+
+func (s *lndEpochStream) Recv() (*chainrpc.BlockEpoch, error) {
+	select {
+	case ev, ok := <-s.ch:
+		if !ok {
+			return nil, io.EOF
+		}
+		return ev, nil
+	case <-s.ctx.Done():
+		return nil, status.Error(codes.Canceled, "context canceled")
+	}
+}
+
+// RegisterBlockEpochNtfn: the current best block at once, then one epoch per new tip height.
+func (f *LndChainFake) RegisterBlockEpochNtfn(ctx context.Context, in *chainrpc.BlockEpoch, _ ...grpc.CallOption) (chainrpc.ChainNotifier_RegisterBlockEpochNtfnClient, error) {
+	st := &lndEpochStream{ctx: ctx, ch: make(chan *chainrpc.BlockEpoch, 64)}
+	go func() {
+		t := time.NewTicker(f.poll())
+		defer t.Stop()
+		last := uint32(0)
+		for {
+			w := f.C.w
+			w.mu.Lock()
+			tip, v := f.C.heightLocked(), f.C.Version
+			w.mu.Unlock()
+			if tip != last {
+				last = tip
+				f.stamp("epoch", v)
+				select {
+				case st.ch <- &chainrpc.BlockEpoch{Height: tip + f.C.HeightOffset}:
+				case <-ctx.Done():
+					return
+				}
+			}
+			select {
+			case <-ctx.Done():
+				return
+			case <-t.C:
+			}
+		}
+	}()
+	return st, nil
+}
+
+// LastVersion is the chain version of the most recent event or answer (0 = none yet).
+func (f *LndChainFake) LastVersion() int64 {
+	f.mu.Lock()
+	defer f.mu.Unlock()
+	if len(f.Answers) == 0 {
+		return 0
+	}
+	return f.Answers[len(f.Answers)-1].Version
 }
